@@ -26,7 +26,8 @@ def receiver(cx):
     nv = Obj('NodeView')
     nv.attrs['__call__'] = Builtin(lambda e: wrap(TBool, SelfNodes.n(SN.e) > 0), 'nodes()')
     nv.attrs['__getitem__'] = Builtin(lambda e, k: getitem(e, SN, k), 'nodes[]')
-    o = cx.obj('Molecule', max_node=cx.val('max_node', TOpt(TInt)), nodes=nv, nrexcl=cx.val('nrexcl', TInt))
+    # networkx keeps the atoms in Graph._node, a dict in insertion order (key -> attributes): the same table
+    o = cx.obj('Molecule', max_node=cx.val('max_node', TOpt(TInt)), nodes=nv, nrexcl=cx.val('nrexcl', TInt), _node=SN)
     return o, SN
 
 
